@@ -111,6 +111,10 @@ inductive Action where
   | ctxExit (bodyRaised : Bool) (perm : List Nat)
   | cancelJoiner (perm : List Nat)
   | nextDone (k : Nat) (perm : List Nat)
+  /-- another task calls `group.cancel_remaining()`: every pending member is sent a
+      cancellation (in the order `perm` of the set iteration); that task's own wait for them is
+      not part of the group's state -/
+  | cancelRem (perm : List Nat)
   deriving Repr, DecidableEq
 
 def G.find (g : G) (i : Nat) : Option Mem := g.mem.find? (·.id == i)
@@ -350,11 +354,12 @@ def G.apply (g : G) : Action → G × List Obs
       ({ g with waiters := g.waiters ++ [.consumer k] }, [Obs.nextDoneBlocked k])
     else
       G.wake { g with sem := g.sem - 1 } (.consumer k)
+  | .cancelRem perm => g.deliverCancels (orderBy perm g.pending)
 
 def Action.perm : Action → List Nat
   | .spawn .. => []
   | .finish _ _ p | .extCancel _ p | .finCancel _ p | .join p | .ctxExit _ p
-  | .cancelJoiner p | .nextDone _ p => p
+  | .cancelJoiner p | .nextDone _ p | .cancelRem p => p
 
 /-- **the reactive step**: apply the action, then run the joiner to quiescence -/
 def react (g : G) (a : Action) : G × List Obs :=
